@@ -32,8 +32,12 @@ def brute(f, a, edges, mode):
     return H, S
 
 
+RT = [1e-12]       # relative tolerance of the comparisons: 1e-12, or single precision when the caller's amplitudes are float32
+                   # (numpy then squares and sums in float32 by its own rules)
+
+
 def close(a, b):
-    return a.shape == b.shape and np.allclose(a, b, rtol=1e-12, atol=1e-12 * (1 + np.abs(b).max() if b.size else 1))
+    return a.shape == b.shape and np.allclose(a, b, rtol=RT[0], atol=RT[0] * (1 + np.abs(b).max() if b.size else 1))
 
 
 def oracle(case, rec):
@@ -56,13 +60,21 @@ def oracle(case, rec):
     elif dt == 'i8':
         f = np.round(f)
     fin = f.astype({'f8': np.float64, 'f4': np.float32, 'i8': np.int64}[dt])
+    adt = case.get('adtype', 'f8')
+    if adt != 'f8':
+        # amplitudes as stored by the caller: integer counts (scaled and rounded) or single precision; the brute force sums
+        # the exact stored values in float64
+        a = np.round(a * case.get('again', 1.0)) if adt[0] == 'i' else a.astype(np.float32).astype(float)
+    astored = a.astype({'f8': np.float64, 'f4': np.float32, 'i8': np.int64, 'i4': np.int32, 'i2': np.int16}[adt])
+    rec.cls('amplitude-dtype=' + adt)
+    RT[0] = 1e-4 if adt == 'f4' else 1e-12
     H, S = brute(f, a, edges, mode)
     below = bool((f < edges[0]).any())
     above = bool((f >= edges[-1]).any())
     onedge = bool(np.isin(f, edges).any())
     tag = ('below' if below else '') + ('above' if above else '') + ('edge' if onedge else '') or 'inrange'
     rec.cls('dtype=' + dt)
-    f0, a0 = gens.relayout(fin.copy(), lay), gens.relayout(a.copy(), lay)   # what the routines get (the case stays pristine)
+    f0, a0 = gens.relayout(fin.copy(), lay), gens.relayout(astored.copy(), lay)   # what the routines get (the case stays pristine)
     rec.cls('layout=' + lay)
     try:
         one = np.asarray(emd.spectra.hilberthuang_1d(f0, a0, edges.copy(), mode=mode))
@@ -74,14 +86,14 @@ def oracle(case, rec):
     dense_before = dense.copy()
     if a0.flags.writeable and f0.flags.writeable:
         keep_a, keep_f = a0.copy(), f0.copy()
-        a0 *= 3.0           # the caller goes on using its own arrays ...
+        a0 *= 3             # the caller goes on using its own arrays ...
         f0 += 1.0
         if not (np.array_equal(np.asarray(sp.toarray()), spd_before) and np.array_equal(dense, dense_before)):
             raise Violation('C10/returned-spectrum-aliases-input/%s' % mode,
                             'the spectrum returned earlier changed when the caller modified its amplitude / frequency array')
         a0[...] = keep_a
         f0[...] = keep_f
-    if not (np.array_equal(fin, f0) and np.array_equal(a, a0)):
+    if not (np.array_equal(fin, f0) and np.array_equal(astored, a0)):
         raise Violation('C10/input-modified', 'frequency or amplitude array changed by hilberthuang_1d / hilberthuang')
     spd = np.asarray(sp.toarray())
     if not close(dense, H):
@@ -93,11 +105,11 @@ def oracle(case, rec):
     if not close(one, S):
         raise Violation('C10/hilberthuang_1d/vs-bruteforce/' + tag,
                         'f=%r edges=%r got %r expected %r' % (f.tolist()[:6], edges.tolist()[:6], one.tolist()[:4], S.tolist()[:4]))
-    if not np.allclose(dense.sum(axis=1), one.sum(axis=1), rtol=1e-12, atol=1e-12 * (1 + np.abs(a).sum() + (a ** 2).sum())):
+    if not np.allclose(dense.sum(axis=1), one.sum(axis=1), rtol=RT[0], atol=RT[0] * (1 + np.abs(a).sum() + (a ** 2).sum())):
         raise Violation('C10/marginals-disagree/' + tag, '')
     w = a ** 2 if mode == 'energy' else a
     tot = w[(f >= edges[0]) & (f < edges[-1])].sum()
-    if not np.isclose(dense.sum(), tot, rtol=1e-12, atol=1e-12 * (1 + np.abs(a).sum() + (a ** 2).sum())):
+    if not np.isclose(dense.sum(), tot, rtol=RT[0], atol=RT[0] * (1 + np.abs(a).sum() + (a ** 2).sum())):
         raise Violation('C10/total-energy/' + tag, '%r vs %r' % (dense.sum(), tot))
     rec.cls(tag)
     rec.cls('mode=' + mode)
@@ -147,7 +159,9 @@ def random_case(draw):
         f[rng.random((T, M)) < 0.1] *= -1
     a = np.round((rng.random((T, M)) - draw(st.sampled_from([0.0, 0.0, 0.0, 0.3, 1.0]))) * 3, 4)     # also signed / negative
     return {'f': f, 'a': a, 'edges': edges, 'mode': draw(st.sampled_from(['energy', 'amplitude'])),
-            'layout': draw(st.sampled_from(gens.LAYOUTS)), 'dtype': draw(st.sampled_from(['f8', 'f8', 'f4']))}
+            'layout': draw(st.sampled_from(gens.LAYOUTS)), 'dtype': draw(st.sampled_from(['f8', 'f8', 'f4'])),
+            'adtype': draw(st.sampled_from(['f8', 'f8', 'f8', 'i8', 'i4', 'i2', 'f4'])),
+            'again': draw(st.sampled_from([1.0, 100.0, 9000.0]))}
 
 
 CLAUSES = [
